@@ -11,7 +11,7 @@ fn cases(ob: &str) -> Vec<String> {
     let mut out = vec![];
     if ob.contains("arith[") { return out; }   // integer-overflow obligations need inputs beyond what this family generates
     if !ob.contains("decreases") { out.push("leak:".into()); }
-    for (name, unit) in [("quote", "'"), ("quasi", "`"), ("unquote", ","), ("splice", ",@"), ("mixed", "'("), ("paren", "("), ("bracket", "["), ("vec", "#(")] {
+    for (name, unit) in [("quote", "'"), ("quasi", "`"), ("unquote", ","), ("splice", ",@"), ("mixed", "'("), ("paren", "("), ("bracket", "["), ("vec", "#("), ("dotted", "(a . "), ("dottedvec", "(a . #("), ("dottedquote", "(a . '"), ("bracketdot", "[a . ")] {
         out.push(format!("deep:{}:{}:200000", name, crate::hex(unit.as_bytes())));
     }
     out.push("nest100:".into());
